@@ -70,8 +70,10 @@ func (s *series) points() int {
 	switch s.Gen {
 	case "seq":
 		return len(s.Seq)
-	case "limit", "len":
+	case "limit", "len", "big":
 		return s.N
+	case "pbx":
+		return 100000 // a descriptor, expanded by the trace driver (expandPBX); the figure only weighs the job
 	default:
 		return s.D * s.Rep
 	}
@@ -123,9 +125,35 @@ func (s *series) val(c colDef, i int) val {
 		return limitVal(c, i)
 	case "len":
 		return lenVal(c, i, s)
+	case "big":
+		return bigVal(c, i, s.N)
 	default:
 		return dictVal(c, i/s.Rep, s.D)
 	}
+}
+
+// bigSpan is the shared backing of the payloads of "big" traces: a trace block takes spans until it holds >= 2 MiB of
+// payload (banyand/trace maxUncompressedSpanSize), so every span of this size closes its block.
+const bigSpanLen = 2<<20 + 64
+
+var bigSpan = func() string {
+	b := make([]byte, bigSpanLen+16)
+	for i := range b {
+		b[i] = byte(i*131 + i>>9)
+	}
+	return string(b)
+}()
+
+// bigVal: a trace of n spans stored as n blocks: spans 0..n-2 carry bigSpanLen bytes (each different), the last one
+// is short; the tags walk through the alphabets.
+func bigVal(c colDef, i, n int) val {
+	if c.Kind == kPayload {
+		if i < n-1 {
+			return vs(bigSpan[i : i+bigSpanLen])
+		}
+		return vs("tail")
+	}
+	return pick(c.Kind, 1+i, c.Rot)
 }
 
 // longPos is the row of a "len" series that holds the long values.
@@ -408,6 +436,34 @@ func spaceLen() []series {
 	return out
 }
 
+// spacePBX: primary-index alignment datasets (trace only). A trace part lists its blocks in "primary index blocks"
+// that roll over after 128 KiB of block metadata; a trace of B blocks can sit anywhere relative to a roll-over. One
+// descriptor = one part of T single-block traces in which the trace at sorted position r1+delta is a B-block trace
+// (r1 = number of blocks the first primary block holds, measured on the same batch without the big trace, see
+// expandPBX). delta in [-(B+1), +1] x B in {2,3} makes the roll-over fall before the trace, after it, and between
+// every two of its blocks; which alignment each dataset produced is recorded (trace-pbm/... outcomes) and the run is
+// a harness error unless every alignment was produced.
+var pbxBlocks = []int{2, 3}
+
+func spacePBX() []series {
+	var out []series
+	for _, b := range pbxBlocks {
+		for a := range pbxAlignments(b) {
+			out = append(out, series{Gen: "pbx", N: b, D: a})
+		}
+	}
+	return out
+}
+
+// pbxAlignments: the alignments of a B-block trace against a roll-over that must all have been exercised.
+func pbxAlignments(b int) []string {
+	out := []string{fmt.Sprintf("inner:%d", b), fmt.Sprintf("head:%d", b)}
+	for k := 1; k < b; k++ {
+		out = append(out, fmt.Sprintf("inner:%d+%d", k, b-k))
+	}
+	return out
+}
+
 func number(ss []series) []series {
 	for i := range ss {
 		ss[i].ID = i
@@ -423,6 +479,10 @@ func (s *series) String() string {
 		return fmt.Sprintf("limit n=%d split=%d", s.N, s.Split)
 	case "len":
 		return fmt.Sprintf("len l=%d pos=%d n=%d", s.L, s.Pos, s.N)
+	case "big":
+		return fmt.Sprintf("big blocks=%d", s.N)
+	case "pbx":
+		return fmt.Sprintf("pbx blocks=%d align=%s", s.N, pbxAlignments(s.N)[s.D%len(pbxAlignments(s.N))])
 	}
 	return fmt.Sprintf("dict d=%d rep=%d", s.D, s.Rep)
 }
